@@ -21,7 +21,7 @@ CFG = {
                        "Call (dispatchers), Loop markers; &mut-self callees inlined; sibling branches that only reject listed first. "
                        "Session/Order.v: model order = regenerated order (36 paths), tc_function / tc_sort / let arm = interpretation "
                        "of the regenerated lists, vf <-> atomic (abstract executions), classification atomic-by-order vs refuted",
-        "theorem_backed": "over the faithful declaration-state model (typecheck_function in the order repaired by "
+        "theorem_backed": "[session 4] the ordered Validate/Mutate step lists of the typechecker, shadowing pass and runner (36 paths) are REGENERATED (gen/SessionFacts.v); c09_model_order_is_source_order, c09_validates_first_iff_atomic, c09_tc_function/sort/let_is_source_order, c09_paths_atomic_by_order, c09_paths_order_refuted, c09_combined_ruleset_guarded, c09_db_effects_by_order; over the faithful declaration-state model (typecheck_function in the order repaired by "
                           "repository commit 473a35e): (a) rejected => state unchanged for every command whose "
                           "typechecking is pure (ruleset, rule, run, check, push, pop, print-size, set, union, "
                           "expression actions) and for every single-part declaration (sort, presort instance, function, "
